@@ -12,6 +12,7 @@ HARNESS_EXTRA = ['-Wl,--wrap=pthread_setspecific,--wrap=pipe,--wrap=close,--wrap
 DEFINES = ['LIBMODULE_LOG_CTX=CORE']
 model_input = corelib.model_input
 project = corelib.project_all
+project_pair = corelib.project_pair
 FULL_ALPHABET = ['ctx', 'reg', 'reg', 'life', 'life', 'life', 'loop', 'loop', 'ps', 'ps', 'sub', 'become', 'stash', 'batch',
                  'tb', 'fd', 'fd', 'tmr', 'srclen', 'errno', 'flags', 'prio', 'pill', 'tick', 'burst', 'foreign']
 
